@@ -74,10 +74,11 @@ structure Connack5 where
   props : Props
 deriving DecidableEq, Repr, Inhabited
 
-/-- flags stored raw (reserved bits kept); `remaining_length := cursor` -/
+/-- reserved acknowledge-flag bits rejected (since 2f6b66c); `remaining_length := cursor` -/
 def Connack5.parse (data : List Nat) : PRes Connack5 :=
   if data.length < 3 then .err .MalformedPacket else
   idx "v5_0::connack::parse:data[cursor] flags" data 0 fun flags =>
+  if flags > 1 then .err .MalformedPacket else          -- `(flags & 0xFE) != 0` on a byte
   idx "v5_0::connack::parse:data[cursor] code" data 1 fun code =>
   if ¬ connectRcOk code then .err .MalformedPacket else
   (parsePropsAt "v5_0::connack::parse:props" validateConnackProps data 2).bind fun pp c =>
@@ -103,7 +104,7 @@ deriving DecidableEq, Repr, Inhabited
 
 /-- the property-length byte is optional on input (nothing after the id → empty properties) -/
 def Publish5.parse (pw flags : Nat) (data : List Nat) : PRes Publish5 :=
-  (parsePublishHead pw flags data).bind fun tp cursor =>
+  (parsePublishHead true pw flags data).bind fun tp cursor =>
   (if cursor < data.length then
       (parsePropsAt "v5_0::publish::parse:props" validatePublishProps data cursor).bind fun pp c =>
       .ok pp (cursor + c)
